@@ -38,8 +38,10 @@ type RouteJ struct {
 	GroupBy  []string          `json:"group_by,omitempty"` // nil = inherit; ["..."] = all
 	Receiver string            `json:"receiver,omitempty"`
 	Continue bool              `json:"continue,omitempty"`
-	Mute     []string          `json:"mute,omitempty"` // mute_time_intervals of the child route
-	GW       int64             `json:"gw,omitempty"` // own timers of the child route (ns); 0 = inherit
+	Mute     []string          `json:"mute,omitempty"`   // mute_time_intervals of the child route
+	Active   []string          `json:"active,omitempty"` // active_time_intervals of the child route
+	Routes   []RouteJ          `json:"routes,omitempty"` // nested routes (GenDeepIntervals); Gen's trees are one level deep
+	GW       int64             `json:"gw,omitempty"`     // own timers of the child route (ns); 0 = inherit
 	GI       int64             `json:"gi,omitempty"`
 	RI       int64             `json:"ri,omitempty"`
 }
@@ -61,13 +63,13 @@ type InhJ struct {
 }
 
 type Scenario struct {
-	Inhibit    []InhJ              `json:"inhibit_rules,omitempty"`
-	RouteLbls  map[string]string   `json:"route_labels,omitempty"` // `labels:` of the root route (values may be templates)
+	Inhibit   []InhJ            `json:"inhibit_rules,omitempty"`
+	RouteLbls map[string]string `json:"route_labels,omitempty"` // `labels:` of the root route (values may be templates)
 	// TZOffset != 0: the process runs in a fixed local zone with this offset (seconds east of UTC) and the configuration
 	// defines the interval "fri" = every Friday WITHOUT a location (i.e. Friday in UTC); the virtual clock starts on
 	// Saturday 2000-01-01T00:00Z and no run lasts six days, so a route muted by "fri" is never muted — unless intervals
 	// without a location are evaluated in the local zone
-	TZOffset int `json:"tz_offset,omitempty"`
+	TZOffset   int                 `json:"tz_offset,omitempty"`
 	GW, GI, RI int64               `json:"-"`
 	GWs        string              `json:"group_wait"`
 	GIs        string              `json:"group_interval"`
@@ -100,40 +102,72 @@ func (sc *Scenario) YAML() string {
 			fmt.Fprintf(&b, "    %s: %q\n", k, sc.RouteLbls[k])
 		}
 	}
-	if len(sc.Routes) > 0 {
-		b.WriteString("  routes:\n")
-		for _, r := range sc.Routes {
-			fmt.Fprintf(&b, "  - receiver: %s\n", r.Receiver)
+	var emit func(indent string, rs []RouteJ)
+	emit = func(indent string, rs []RouteJ) {
+		if len(rs) == 0 {
+			return
+		}
+		fmt.Fprintf(&b, "%sroutes:\n", indent)
+		in := indent + "  "
+		for _, r := range rs {
+			fmt.Fprintf(&b, "%s- receiver: %s\n", indent, r.Receiver)
 			if len(r.Match) > 0 {
-				b.WriteString("    matchers:\n")
+				fmt.Fprintf(&b, "%smatchers:\n", in)
 				for _, k := range vh.SortedKeys(r.Match) {
-					fmt.Fprintf(&b, "    - %s=%q\n", k, r.Match[k])
+					fmt.Fprintf(&b, "%s- %s=%q\n", in, k, r.Match[k])
 				}
 			}
 			if r.Continue {
-				b.WriteString("    continue: true\n")
+				fmt.Fprintf(&b, "%scontinue: true\n", in)
 			}
 			if len(r.Mute) > 0 {
-				fmt.Fprintf(&b, "    mute_time_intervals: [%s]\n", strings.Join(quoteAll(r.Mute), ", "))
+				fmt.Fprintf(&b, "%smute_time_intervals: [%s]\n", in, strings.Join(quoteAll(r.Mute), ", "))
 			}
-			gb("    ", r.GroupBy)
+			if len(r.Active) > 0 {
+				fmt.Fprintf(&b, "%sactive_time_intervals: [%s]\n", in, strings.Join(quoteAll(r.Active), ", "))
+			}
+			gb(in, r.GroupBy)
 			if r.GW != 0 {
-				fmt.Fprintf(&b, "    group_wait: %s\n", dur(r.GW))
+				fmt.Fprintf(&b, "%sgroup_wait: %s\n", in, dur(r.GW))
 			}
 			if r.GI != 0 {
-				fmt.Fprintf(&b, "    group_interval: %s\n", dur(r.GI))
+				fmt.Fprintf(&b, "%sgroup_interval: %s\n", in, dur(r.GI))
 			}
 			if r.RI != 0 {
-				fmt.Fprintf(&b, "    repeat_interval: %s\n", dur(r.RI))
+				fmt.Fprintf(&b, "%srepeat_interval: %s\n", in, dur(r.RI))
 			}
+			emit(in, r.Routes)
 		}
 	}
+	emit("  ", sc.Routes)
 	b.WriteString("receivers:\n")
 	for _, name := range vh.SortedKeys(sc.Receivers) {
 		fmt.Fprintf(&b, "- name: %s\n", name)
 	}
-	if sc.TZOffset != 0 {
-		b.WriteString("time_intervals:\n- name: fri\n  time_intervals:\n  - weekdays: ['friday']\n")
+	// named time intervals: "fri" = every Friday (the virtual clock starts on Saturday 2000-01-01T00:00Z and no run
+	// lasts six days: never inside), "allweek" = always inside
+	used := map[string]bool{}
+	var collect func(rs []RouteJ)
+	collect = func(rs []RouteJ) {
+		for _, r := range rs {
+			for _, n := range r.Mute {
+				used[n] = true
+			}
+			for _, n := range r.Active {
+				used[n] = true
+			}
+			collect(r.Routes)
+		}
+	}
+	collect(sc.Routes)
+	if sc.TZOffset != 0 || used["fri"] || used["allweek"] {
+		b.WriteString("time_intervals:\n")
+		if sc.TZOffset != 0 || used["fri"] {
+			b.WriteString("- name: fri\n  time_intervals:\n  - weekdays: ['friday']\n")
+		}
+		if used["allweek"] {
+			b.WriteString("- name: allweek\n  time_intervals:\n  - weekdays: ['sunday:saturday']\n")
+		}
 	}
 	if len(sc.Inhibit) > 0 {
 		b.WriteString("inhibit_rules:\n")
@@ -1469,36 +1503,42 @@ func (sc *Scenario) refGroups(ls model.LabelSet) []string {
 		key     string
 		groupBy []string
 	}
-	var chosen []node
-	for _, r := range sc.Routes {
-		ok := true
-		for k, v := range r.Match {
-			if string(ls[model.LabelName(k)]) != v {
-				ok = false
+	// the routing rule on the scenario's own description: a node is chosen iff it matches and none of its children
+	// yields a match; children in order, the first matching child stops the scan unless it has continue
+	var walk func(rs []RouteJ, key string, groupBy []string) []node
+	walk = func(rs []RouteJ, key string, groupBy []string) []node {
+		var chosen []node
+		for _, r := range rs {
+			ok := true
+			for k, v := range r.Match {
+				if string(ls[model.LabelName(k)]) != v {
+					ok = false
+				}
+			}
+			if !ok {
+				continue
+			}
+			gb := r.GroupBy
+			if gb == nil {
+				gb = groupBy
+			}
+			ks := vh.SortedKeys(r.Match)
+			parts := make([]string, len(ks))
+			for i, k := range ks {
+				parts[i] = fmt.Sprintf("%s=%q", k, r.Match[k])
+			}
+			chosen = append(chosen, walk(r.Routes, key+"/{"+strings.Join(parts, ",")+"}", gb)...)
+			if !r.Continue {
+				break
 			}
 		}
-		if !ok {
-			continue
+		if len(chosen) == 0 {
+			chosen = []node{{key: key, groupBy: groupBy}}
 		}
-		gb := r.GroupBy
-		if gb == nil {
-			gb = sc.GroupBy
-		}
-		ks := vh.SortedKeys(r.Match)
-		parts := make([]string, len(ks))
-		for i, k := range ks {
-			parts[i] = fmt.Sprintf("%s=%q", k, r.Match[k])
-		}
-		chosen = append(chosen, node{key: "{}/{" + strings.Join(parts, ",") + "}", groupBy: gb})
-		if !r.Continue {
-			break
-		}
-	}
-	if len(chosen) == 0 {
-		chosen = []node{{key: "{}", groupBy: sc.GroupBy}}
+		return chosen
 	}
 	var out []string
-	for _, n := range chosen {
+	for _, n := range walk(sc.Routes, "{}", sc.GroupBy) {
 		gl := model.LabelSet{}
 		all := len(n.groupBy) == 1 && n.groupBy[0] == "..."
 		for name, v := range ls {
